@@ -23,6 +23,7 @@ EXPLANATION = (
     "the request function binds future, list, accept and stop predicates to the matching collector parameters and returns "
     "that list. R4: the timeout callback only acts on a pending future and sets TimeoutError. Decides the local "
     "preconditions of the property; completion instants and non-interference over all interleavings as behaviour are not decided."
+    ' Also: no bare future completion is registered as a message handler; the registered callback has exactly one binding.'
 )
 ASSUMPTIONS = ["M1-M5 of DESIGN.md section 2", "set.add/discard, list.append and partial() have their documented semantics"]
 
